@@ -735,7 +735,28 @@ pub fn main(args: &[String]) -> i32 {
                                     .filter(|k| !g.by_kind[s][*k].is_empty())
                                     .collect();
                                 let kind = kinds[rng.below(kinds.len())];
-                                let v = &g.by_kind[s][kind];
+                                // odd walks are those of a log-structured user (what BufferedRaftLog does): appends at the
+                                // tail in index order, replace_range with an ascending batch starting at `from`, truncations
+                                // inside the log; even walks take any edge of the graph
+                                let last = g.states[s].last;
+                                let in_order = |op: &Op| match op {
+                                    Op::Persist { es } => es.iter().enumerate().all(|(j, e)| e.i == last + 1 + j as u64),
+                                    Op::Replace { from, es } => {
+                                        *from <= last + 1 && es.iter().enumerate().all(|(j, e)| e.i == *from + j as u64)
+                                    }
+                                    Op::Truncate { from } => *from <= last + 1,
+                                    _ => true,
+                                };
+                                let all = &g.by_kind[s][kind];
+                                let mut filtered: Vec<usize> = vec![];
+                                if *w % 2 == 1 {
+                                    filtered = all.iter().copied().filter(|ei| in_order(&g.out[s][*ei].op)).collect();
+                                    if filtered.is_empty() {
+                                        // this kind has no in-order edge here (log full): take any in-order edge
+                                        filtered = (0..g.out[s].len()).filter(|ei| in_order(&g.out[s][*ei].op)).collect();
+                                    }
+                                }
+                                let v: &Vec<usize> = if filtered.is_empty() { all } else { &filtered };
                                 let ei = v[rng.below(v.len())];
                                 let e = &g.out[s][ei];
                                 covered.lock().unwrap().insert((s, ei));
